@@ -10,6 +10,10 @@
 (*   uw  = weather.use_weather        (boolean)                            *)
 (*   sox = emissions.sox_enabled      (boolean)                            *)
 (*   nox = emissions.nox_method       (enum, three members)                *)
+(*   wd  = weather.weather_data_dir   (optional path: the packaged default *)
+(*         directory, another existing one, or None - "null" - which only  *)
+(*         keyword arguments can express and which is a value like any     *)
+(*         other: an explicit None overrides the layers below)             *)
 (* A layer (configuration file, keyword arguments) is a partial assignment *)
 (* to those paths; "absent" means the layer does not mention the path.     *)
 (* Booleans are kept as strings so that all values are comparable in TLC.  *)
@@ -20,18 +24,19 @@ CONSTANTS FileLayers,   \* layers that may appear as the configuration file
           KwLayers,     \* layers that may appear as keyword arguments
           FailKinds     \* kinds of failing load
 
-Paths == {"uw", "sox", "nox"}
+Paths == {"uw", "sox", "nox", "wd"}
 Absent == "absent"
 Unset  == "unset"
-Dom(p) == IF p = "nox" THEN {"bffm2", "p3t3", "none"} ELSE {"true", "false"}
-AllVals == {"true", "false", "bffm2", "p3t3", "none"}
+Dom(p) == IF p = "nox" THEN {"bffm2", "p3t3", "none"} ELSE IF p = "wd" THEN {"wdefault", "walt", "null"} ELSE {"true", "false"}
+AllVals == {"true", "false", "bffm2", "p3t3", "none", "wdefault", "walt", "null"}
 
 Layer == {l \in [Paths -> AllVals \cup {Absent}] :
              \A p \in Paths : l[p] = Absent \/ l[p] \in Dom(p)}
 NoLayer == [p \in Paths |-> Absent]
+FileLayer == {l \in Layer : l["wd"] # "null"}      \* TOML cannot say None
 
 \* packaged defaults (src/AEIC/data/default_config.toml)
-Default == [p \in Paths |-> IF p = "nox" THEN "bffm2" ELSE "true"]
+Default == [p \in Paths |-> IF p = "nox" THEN "bffm2" ELSE IF p = "wd" THEN "wdefault" ELSE "true"]
 
 \* defaults overlaid by file overlaid by keyword arguments, key by key at
 \* every nesting level (a layer that sets emissions.sox_enabled does not
@@ -44,7 +49,7 @@ NoVals == [p \in Paths |-> Unset]
 
 AllFailKinds == {"invalid_enum_kw", "invalid_enum_file", "bad_type_kw",
                  "missing_file", "bad_toml", "bad_perf_path", "bad_engine_path",
-                 "bad_weather_dir"}
+                 "bad_weather_dir", "null_perf_kw"}       \* null_perf_kw: a required path given as None
 MutLevels == {"outer", "weather", "emissions"}
 
 VARIABLES configured,  \* is there an active configuration
